@@ -74,3 +74,49 @@ def imod (a b : Int) : Res Int := if b = 0 then .fault else .ok (Int.tmod a b)
 def idiv (a b : Int) : Res Int := if b = 0 then .fault else .ok (Int.tdiv a b)
 
 end Ike.Go
+
+namespace Ike.Go
+open Ike
+
+/-! ### `crypto/rand.Int`, `math/big.Int.Cmp`, `strings.Repeat`, loops without a condition -/
+
+/-- iterations allowed to a `for { … rand.Int … }` loop (rejection sampling: no bound follows from the text) -/
+def unboundedLoopFuel : Nat := 64
+
+/-- `strings.Repeat(s, n)` (panics for a negative count) -/
+def strRepeat (s : Bytes) (n : Int) : Bytes := (List.replicate n.toNat s).flatten
+
+/-- `x.Cmp(y)` -/
+def bigCmp (x y : Nat) : Int := if x < y then -1 else if x = y then 0 else 1
+
+/-- number of bits of `n` (`big.Int.BitLen`) -/
+def bitLen : Nat → Nat
+  | 0 => 0
+  | n + 1 => Nat.log2 (n + 1) + 1
+
+/-- the rejection-sampling loop of `crypto/rand.Int(rand.Reader, max)`: `k` octets per draw, the top octet masked to
+`b` bits, accepted when below `max`; a failing read is the error; `fuel` draws at most -/
+def randIntLoop (max k b : Nat) : Nat → Rand → Res (Rand × Nat × Err)
+  | 0, _ => .fault
+  | fuel + 1, r =>
+    match r.draw k with
+    | (r', .ok bs) =>
+      let bs' := match bs with
+        | [] => []
+        | x :: rest => (x &&& UInt8.ofNat (2 ^ b - 1)) :: rest
+      if beNat bs' < max then .ok (r', beNat bs', .none) else randIntLoop max k b fuel r'
+    | (r', _) => .ok (r', 0, .other)
+
+/-- `rand.Int(rand.Reader, max)`: panics for `max ≤ 0`; uniform in `[0, max)` by rejection sampling over
+`⌈bitLen(max−1)/8⌉` octets per draw (Go 1.2x `crypto/rand/util.go`) -/
+def randInt (r : Rand) (max : Nat) : Res (Rand × Nat × Err) :=
+  if max = 0 then .fault
+  else
+    let bl := bitLen (max - 1)
+    if bl = 0 then .ok (r, 0, .none)
+    else
+      let k := (bl + 7) / 8
+      let b := if bl % 8 = 0 then 8 else bl % 8
+      randIntLoop max k b unboundedLoopFuel r
+
+end Ike.Go
